@@ -48,7 +48,8 @@ func short(p string) string {
 // Sub is one request submitted by the harness on a session stream.
 type Sub struct {
 	Clock int64
-	Req   *signaling.SessionRequest
+	Req   *signaling.SessionRequest // private clone of what the harness submitted
+	Wire  []byte                    // its wire encoding (what the server's stream reads)
 }
 
 // Gate blocks Send on every stream of one peer while held.
@@ -177,7 +178,7 @@ type Call struct {
 
 	ctx    context.Context
 	cancel context.CancelFunc
-	in     chan *signaling.SessionRequest
+	in     chan []byte // wire-encoded requests (MarshalVT at Submit)
 	gate   *Gate
 
 	StartClock int64
@@ -204,7 +205,7 @@ func (c *Call) String() string {
 func (h *Harness) newCall(src peer.ID, listen bool) *Call {
 	ctx, cancel := context.WithCancel(context.WithValue(context.Background(), identKey{}, src))
 	c := &Call{H: h, Listen: listen, Src: src.String(), ctx: ctx, cancel: cancel,
-		in: make(chan *signaling.SessionRequest, 512), done: make(chan struct{})}
+		in: make(chan []byte, 512), done: make(chan struct{})}
 	c.gate = h.Gate(c.Src)
 	h.mu.Lock()
 	c.Idx = len(h.calls)
@@ -256,13 +257,31 @@ func (h *Harness) StartListen(src peer.ID) *Call {
 }
 
 // Submit queues a request for the server's Recv and returns its clock stamp.
+// Like a real starpc client stream the request is MARSHALLED here (proto3:
+// zero-valued fields are absent from the wire); the server side decodes the
+// bytes with UnmarshalVT, so the server never sees a harness-owned Go object.
 func (c *Call) Submit(req *signaling.SessionRequest) int64 {
+	wire, err := req.MarshalVT()
+	if err != nil {
+		panic(fmt.Sprintf("g7sig: cannot marshal request: %v", err))
+	}
+	return c.SubmitWire(req, wire)
+}
+
+// SubmitWire queues raw request bytes (req, which may be nil, only documents
+// them in Subs).
+func (c *Call) SubmitWire(req *signaling.SessionRequest, wire []byte) int64 {
+	var cp *signaling.SessionRequest
+	if req != nil {
+		cp = req.CloneVT()
+	}
+	wire = append([]byte(nil), wire...)
 	c.mu.Lock()
 	t := c.H.Tick()
-	c.subs = append(c.subs, Sub{Clock: t, Req: req})
+	c.subs = append(c.subs, Sub{Clock: t, Req: cp, Wire: wire})
 	c.mu.Unlock()
 	select {
-	case c.in <- req:
+	case c.in <- wire:
 	case <-c.ctx.Done():
 	}
 	return t
@@ -349,28 +368,59 @@ func (c *Call) send(it Item) error {
 type SessionStream struct{ c *Call }
 
 func (s *SessionStream) Context() context.Context { return s.c.ctx }
-func (s *SessionStream) Recv() (*signaling.SessionRequest, error) {
+
+// readOne returns the next wire-encoded request.
+func (s *SessionStream) readOne() ([]byte, error) {
 	// a dead stream fails even if requests are still queued
 	if err := s.c.ctx.Err(); err != nil {
 		return nil, err
 	}
 	select {
-	case m := <-s.c.in:
-		return m, nil
+	case b := <-s.c.in:
+		return b, nil
 	case <-s.c.ctx.Done():
 		return nil, s.c.ctx.Err()
 	}
 }
-func (s *SessionStream) RecvTo(m *signaling.SessionRequest) error {
-	r, err := s.Recv()
+
+// Recv / RecvTo / MsgRecv behave exactly like the generated starpc server
+// stream over srpc.MsgStream: Recv allocates a fresh object, RecvTo and MsgRecv
+// UnmarshalVT the packet INTO the object the caller passes (no Reset: the VT
+// unmarshal merges, fields absent from the wire keep their previous value).
+func (s *SessionStream) Recv() (*signaling.SessionRequest, error) {
+	m := new(signaling.SessionRequest)
+	if err := s.MsgRecv(m); err != nil {
+		return nil, err
+	}
+	return m, nil
+}
+func (s *SessionStream) RecvTo(m *signaling.SessionRequest) error { return s.MsgRecv(m) }
+func (s *SessionStream) MsgRecv(msg srpc.Message) error {
+	b, err := s.readOne()
 	if err != nil {
 		return err
 	}
-	m.Reset()
-	m.SessionSeqno, m.Body = r.SessionSeqno, r.Body
-	return nil
+	// the packet buffer belongs to the reader from here on (as with a real
+	// stream); the harness keeps its own copy in Subs
+	return msg.UnmarshalVT(append([]byte(nil), b...))
 }
-func (s *SessionStream) Send(m *signaling.SessionResponse) error {
+
+// Send / MsgSend marshal what the server sends (at the moment of the call, as
+// the real stream does) and record the DECODED copy: nothing in the outbox
+// aliases a server-side object.
+func (s *SessionStream) Send(m *signaling.SessionResponse) error { return s.MsgSend(m) }
+func (s *SessionStream) MsgSend(msg srpc.Message) error {
+	if err := s.c.ctx.Err(); err != nil {
+		return context.Canceled
+	}
+	data, err := msg.MarshalVT()
+	if err != nil {
+		return err
+	}
+	m := new(signaling.SessionResponse)
+	if err := m.UnmarshalVT(data); err != nil {
+		return fmt.Errorf("harness: server sent an undecodable response: %w", err)
+	}
 	it := Item{Kind: "other"}
 	switch b := m.GetBody().(type) {
 	case *signaling.SessionResponse_Opened:
@@ -378,7 +428,7 @@ func (s *SessionStream) Send(m *signaling.SessionResponse) error {
 	case *signaling.SessionResponse_Closed:
 		it = Item{Kind: "closed"}
 	case *signaling.SessionResponse_RecvMsg:
-		it = Item{Kind: "recv", U: b.RecvMsg.GetSeqno(), Msg: b.RecvMsg.CloneVT()}
+		it = Item{Kind: "recv", U: b.RecvMsg.GetSeqno(), Msg: b.RecvMsg}
 	case *signaling.SessionResponse_AckMsg:
 		it = Item{Kind: "ack", U: b.AckMsg}
 	case *signaling.SessionResponse_ClearMsg:
@@ -387,20 +437,26 @@ func (s *SessionStream) Send(m *signaling.SessionResponse) error {
 	return s.c.send(it)
 }
 func (s *SessionStream) SendAndClose(m *signaling.SessionResponse) error { return s.Send(m) }
-func (s *SessionStream) MsgSend(msg srpc.Message) error {
-	return errors.New("harness: MsgSend not used by the server")
-}
-func (s *SessionStream) MsgRecv(msg srpc.Message) error {
-	return errors.New("harness: MsgRecv not used by the server")
-}
-func (s *SessionStream) CloseSend() error { return nil }
+func (s *SessionStream) CloseSend() error                               { return nil }
 func (s *SessionStream) Close() error     { s.c.cancel(); return nil }
 
 // ListenStream is the hand-written signaling.SRPCSignaling_ListenStream.
 type ListenStream struct{ c *Call }
 
 func (s *ListenStream) Context() context.Context { return s.c.ctx }
-func (s *ListenStream) Send(m *signaling.ListenResponse) error {
+func (s *ListenStream) Send(m *signaling.ListenResponse) error { return s.MsgSend(m) }
+func (s *ListenStream) MsgSend(msg srpc.Message) error {
+	if err := s.c.ctx.Err(); err != nil {
+		return context.Canceled
+	}
+	data, err := msg.MarshalVT()
+	if err != nil {
+		return err
+	}
+	m := new(signaling.ListenResponse)
+	if err := m.UnmarshalVT(data); err != nil {
+		return fmt.Errorf("harness: server sent an undecodable response: %w", err)
+	}
 	it := Item{Kind: "other"}
 	switch b := m.GetBody().(type) {
 	case *signaling.ListenResponse_SetPeer:
@@ -411,9 +467,6 @@ func (s *ListenStream) Send(m *signaling.ListenResponse) error {
 	return s.c.send(it)
 }
 func (s *ListenStream) SendAndClose(m *signaling.ListenResponse) error { return s.Send(m) }
-func (s *ListenStream) MsgSend(msg srpc.Message) error {
-	return errors.New("harness: MsgSend not used by the server")
-}
 func (s *ListenStream) MsgRecv(msg srpc.Message) error {
 	return errors.New("harness: MsgRecv not used by the server")
 }
